@@ -750,11 +750,44 @@ func judgeFiniteRange(c *core.Ctx, judge judgeFn, t scase, o panrun.Obs) {
 	judge("finite range: "+t.Src, t, t.Src+"\n", o, "finite-range")
 }
 
+// sweepNextless: objects whose `_iter` hands out something that has no `next` property at all (an int, an
+// array, an empty object, a str), consumed by every chain kind and by the native consumers. Such a program
+// cannot describe an infinite sequence: running out of fuel means the interpreter polls a missing `next` forever.
+func sweepNextless(c *core.Ctx, judge judgeFn) {
+	makers := []string{"{_iter: {|| 1}}", "{_iter: m{[1]}}", "{_iter: 5}", "{_iter: m{{}}}", `{_iter: m{"ab"}}`, "{_iter: m{(1:3)}}", "{_iter: m{{nxt: 1}}}", "{_iter: m{nil}}", "[1].bear({_iter: m{7}})", "Iter.bear({_iter: m{1.5}})"}
+	consumers := []string{"§@{|x| x}", "§$(0){|a, x| x}", "§.A", "§=@{|x| x}", "§~@{|x| x}", "§&@{|x| x}", "§@p", "[*§]", "§.sum", "§.first", "§.zip([1]).A", "§.withI.A", "[1, 2].zip(§).A", "§.lazyMap({|x| x}).A", "§.len", "§.max", "§.has?(1)", "§.join(\",\")"}
+	var cases []scase
+	for _, m := range makers {
+		for _, cs := range consumers {
+			cases = append(cases, scase{Mode: "nextless", Src: "it := " + m + "\n" + strings.ReplaceAll(cs, "§", "it")})
+		}
+	}
+	saveT, saveD := panrun.FuelTicks, panrun.FuelDepth
+	panrun.FuelTicks, panrun.FuelDepth = 30000, 400
+	defer func() { panrun.FuelTicks, panrun.FuelDepth = saveT, saveD }()
+	tk.Batched(c, 20, sourcePrelude, func(emit func(scase)) {
+		for _, cs := range cases {
+			emit(cs)
+		}
+	}, func(t scase) string { return t.Src }, func(t scase, o panrun.Obs) { judgeNextless(c, judge, t, o) })
+}
+
+func judgeNextless(c *core.Ctx, judge judgeFn, t scase, o panrun.Obs) {
+	if o.Kind == "discard" {
+		c.Validated(1)
+		c.Outcome("nextless:does-not-end")
+		c.Violation(core.Violation{Key: "does-not-end/iterator-without-next", Case: core.JSON(t), Desc: strings.ReplaceAll(t.Src, "\n", "; "), Expected: "a value or a Pangaea error (the object handed out by _iter has no `next`)", Observed: "evaluation does not end (stopped by the fuel guard): " + o.Panic, Repro: t.Src + "\n"})
+		return
+	}
+	judge("iterator without next: "+strings.ReplaceAll(t.Src, "\n", "; "), t, t.Src+"\n", o, "nextless")
+}
+
 func run(c *core.Ctx) {
 	judge := newJudge(c)
 	sweepREPL(c, judge)
 	sweepIterators(c, judge)
 	sweepFiniteRanges(c, judge)
+	sweepNextless(c, judge)
 	sweepCLI(c, judge)
 	sweepSources(c, judge)
 	sweepTokens(c, judge)
@@ -790,6 +823,13 @@ func replay(c *core.Ctx, raw json.RawMessage) {
 	}
 	if s.Mode == "repl" {
 		judge("REPL session "+fmt.Sprintf("%q", s.Stdin), s, "", runREPL(s.Stdin), "repl")
+		return
+	}
+	if s.Mode == "nextless" {
+		saveT, saveD := panrun.FuelTicks, panrun.FuelDepth
+		panrun.FuelTicks, panrun.FuelDepth = 30000, 400
+		judgeNextless(c, judge, s, r.EvalSrc(sourcePrelude+s.Src, ""))
+		panrun.FuelTicks, panrun.FuelDepth = saveT, saveD
 		return
 	}
 	if s.Mode == "finite-range" {
